@@ -53,6 +53,10 @@ type L2Frag struct {
 	HdrAlone bool  `json:"hdr_alone,omitempty"`
 	TTL      uint8 `json:"ttl,omitempty"`
 	TOS      uint8 `json:"tos,omitempty"`
+	// XFlags: further bits of the IPv4 flags field carried by the fragment next to MF:
+	// 1 = DF (a source that fragments itself and forbids further fragmentation, RFC 791),
+	// 2 = the reserved bit. Neither changes which fragment is the last one.
+	XFlags int `json:"xflags,omitempty"`
 }
 
 type L2Case struct {
@@ -80,6 +84,17 @@ func l2Packet(d L2Dgram, data []byte, f L2Frag) buffer.VectorisedView {
 		ttl = 64
 	}
 	hdr := ipv4Header(remotes[d.Src], locals[d.Dst], d.Proto, d.ID, f.First, f.Last != d.Total-1, ttl, f.TOS, f.Opt, len(pl))
+	if f.XFlags&3 != 0 {
+		if f.XFlags&1 != 0 {
+			hdr[6] |= 0x40
+		}
+		if f.XFlags&2 != 0 {
+			hdr[6] |= 0x80
+		}
+		hdr[10], hdr[11] = 0, 0
+		ck := ^onesSum(hdr)
+		hdr[10], hdr[11] = byte(ck>>8), byte(ck)
+	}
 	parts := chunk(pl, f.Split)
 	for len(parts) > 1 && len(parts[0]) < 8 {
 		parts = append([][]byte{append(append([]byte(nil), parts[0]...), parts[1]...)}, parts[2:]...)
@@ -409,6 +424,7 @@ func genL2(rt *rapid.T) L2Case {
 		if rapid.IntRange(0, 3).Draw(rt, "ttltos") == 0 {
 			lf.TTL = uint8(rapid.IntRange(1, 255).Draw(rt, "ttl"))
 			lf.TOS = uint8(rapid.IntRange(0, 255).Draw(rt, "tos"))
+			lf.XFlags = rapid.SampledFrom([]int{0, 0, 1, 1, 2, 3}).Draw(rt, "xflags")
 		}
 		c.Seq = append(c.Seq, lf)
 	}
